@@ -1,35 +1,323 @@
-"""Generated/Extracted.lean: integer functions of the repository translated from their Python AST by py2lean
-(DESIGN §3.C).  A function outside the translator's subset is emitted as a comment `-- extract-skipped` and the
-corresponding bridge lemma guard `Extracted.have_<name>` is false, so bridge lemmas are stated conditionally on
-nothing: a *missing* definition breaks the build of the bridge file, which the pipeline reports as a broken
-obligation only for properties that import it."""
+"""Generated/Extracted*.lean: integer / bit-level / octet-string functions of the repository translated from their
+Python AST by py2lean (DESIGN section 3.C), one file per source family, and the list of bridge modules
+(`Props/*Bridge*.lean`: machine-checked `Extracted.f = Model.f`) that are proof obligations of a property.
+
+* A function outside the translator's subset is emitted as a comment `-- extract-skipped <name>: <reason>`; the
+  bridge module of its family is then NOT an obligation of the run (it could not build: the definition is missing)
+  and the property falls back on correspondence alone.  This is logged, never a violation by itself.
+* When every function of a family is extracted, the family's bridge module is listed in `MODULES` of the property
+  (`bridge_modules("Cxx")`): it is built and audited on every run; a lemma that no longer checks is a broken
+  obligation -> failing-input search -> VIOLATION.
+* Each generator returns {name: "extracted" | "extract-skipped: why", bridge module: "obligation" | "not checked: why"};
+  gen_lean.generate_all copies it into the evidence (`coverage.extraction`).
+Files are written under the build lock and only when their content changes.
+"""
 from __future__ import annotations
 
+import dataclasses
+
+import common
 import gen_lean
 from gen_lean import write_if_changed
 import py2lean
+from py2lean import NAT, INT, BOOL, BYTES, E, R, FuncInfo, World, Unsupported
+
+PRELUDE = """import FlexModel.Wire.Bits
+/-! Python built-ins used by the extracted definitions: the octet-string primitives are those of
+`FlexModel/Wire/Bits.lean` (`int.to_bytes`, `int.from_bytes`, slicing, bool -> int); `Enum(value)` is `enumOf`. -/
+namespace Generated.Extracted
+open FlexModel.Wire
+/-- `SomeEnum(v)`: `ValueError` unless `v` is one of the enum's values (list regenerated from the source) -/
+def enumOf (codes : List Nat) (v : Nat) : Except Err Nat := if codes.contains v then .ok v else .error .value
+end Generated.Extracted
+"""
 
 
-def enum_table(*enums):
-    return {e.__name__: {m.name: int(m.value) for m in e} for e in enums}
+@dataclasses.dataclass
+class Family:
+    key: str
+    file: str                    # Generated/<file>.lean
+    imports: list
+    bridge: str                  # Props.<...>
+    props: list
+    deps: list = dataclasses.field(default_factory=list)
+    jobs: list = dataclasses.field(default_factory=list)
+    error: str | None = None     # the family could not even be set up (import error, class vanished ...)
 
 
-@gen_lean.register(props=["C20"])
-def gen_extracted_lt():
-    from flexstack.geonet.basic_header import LT, LTbase
-    enums = enum_table(LTbase)
-    body = "namespace Generated.Extracted\n"
-    skipped = []
-    jobs = [
-        (LT.set_value_in_millis, "LT_set_value_in_millis", ["value"], ["multiplier", "base"]),
-        (LT.get_value_in_millis, "LT_get_value_in_millis", ["multiplier", "base"], None),
-    ]
-    for func, name, params, ret in jobs:
+# functions of the candidate list that are deliberately not attempted (reported in the evidence as skipped)
+NOT_ATTEMPTED = {
+    "BasicHeader.initialize_with_mib_request_and_rhl": "float glue `int(max_packet_lifetime * 1000)` on a float argument "
+                                                        "(covered by correspondence on every integer-ms request, C20)",
+    "TST.set_in_normal_timestamp_seconds": "float arithmetic on a float argument",
+    "LongPositionVector.set_latitude/set_longitude/set_speed/set_heading/refresh_with_tpv_data": "float arithmetic",
+    "LocationTableEntry.check_duplicate_sn": "set/deque containers and in-place mutation (modelled by hand: Geo/LocT.dplPush)",
+    "DccReactive.update/_target_state": "float CBR thresholds, dict/list lookups",
+    "GenerationDeltaTime.from_timestamp/as_timestamp_in_certain_point": "round()/trunc() of float quotients",
+    "CommonHeader.initialize_with_request/initialize_beacon": "reads GNDataRequest / MIB objects (no integer logic of its own)",
+}
+
+
+def build():
+    """set up enums, records and the job list from the current source; returns (world, families)"""
+    w = World()
+    fams = []
+
+    def family(*a, **k):
+        f = Family(*a, **k)
+        fams.append(f)
+        return f
+
+    def job(fam, *a, **k):
+        fi = FuncInfo(*a, **k)
+        w.add_func(fi)
+        fam.jobs.append(fi)
+        return fi
+
+    f_lt = family("LT", "Extracted", [], "Props.C20Bridge", ["C20"])
+    f_basic = family("Basic", "ExtractedBasic", ["Generated.ExtractPrelude"], "Props.C02BridgeBasic", ["C02", "C20"])
+    f_common = family("Common", "ExtractedCommon", ["Generated.ExtractPrelude"], "Props.C02BridgeCommon", ["C02"])
+    f_pv = family("PV", "ExtractedPV", ["Generated.ExtractPrelude"], "Props.C02BridgePV", ["C02"])
+    f_tst = family("TST", "ExtractedTST", [], "Props.C08BridgeTST", ["C08"])
+    f_ext = family("Ext", "ExtractedExt", ["Generated.ExtractPrelude", "Generated.ExtractedPV"], "Props.C02BridgeExt", ["C02"],
+                   deps=["PV"])
+    f_btp = family("Btp", "ExtractedBtp", ["Generated.ExtractPrelude"], "Props.C02BridgeBtp", ["C02"])
+    f_seq = family("Seq", "ExtractedSeq", [], "Props.C15BridgeSeq", ["C15"])
+
+    def guarded(fam, fn):
         try:
-            body += py2lean.translate(func, name, params, enums, ret, ty="Nat") + "\n"
-        except py2lean.Unsupported as e:
-            skipped.append(f"{name}: {e}")
-            body += f"-- extract-skipped {name}: {e}\n"
+            fn()
+        except Exception as e:  # noqa: BLE001  (a vanished class / attribute: the family is skipped, not the run)
+            fam.error = f"{type(e).__name__}: {e}"
+
+    # ---------------------------------------------------------------- basic_header.py
+    def setup_basic():
+        from flexstack.geonet import basic_header as bh
+        w.add_enum(bh.LTbase), w.add_enum(bh.BasicNH)
+        w.add_record(bh.LT, [("multiplier", NAT), ("base", E("LTbase"))])
+        w.add_record(bh.BasicHeader, [("version", NAT), ("nh", E("BasicNH")), ("reserved", NAT), ("lt", R("LT")), ("rhl", NAT)])
+        job(f_lt, bh.LT.set_value_in_millis, "LT_set_value_in_millis", "LT", self_leaves=[], args=[("value", NAT)], ret=R("LT"))
+        job(f_lt, bh.LT.get_value_in_millis, "LT_get_value_in_millis", "LT", ret=NAT)
+        job(f_lt, bh.LT.get_value_in_seconds, "LT_get_value_in_seconds", "LT", ret=NAT)
+        job(f_lt, bh.LT.encode_to_int, "LT_encode_to_int", "LT", ret=NAT)
+        f_basic.imports.append("Generated.Extracted")
+        f_basic.deps.append("LT")
+        job(f_basic, bh.BasicHeader.encode_to_int, "BasicHeader_encode_to_int", "BasicHeader", ret=NAT)
+        job(f_basic, bh.BasicHeader.encode_to_bytes, "BasicHeader_encode_to_bytes", "BasicHeader", ret=BYTES)
+        job(f_basic, bh.BasicHeader.decode_from_int, "BasicHeader_decode_from_int", "BasicHeader", kind="classmethod",
+            args=[("value", NAT)], ret=R("BasicHeader"))
+        job(f_basic, bh.BasicHeader.decode_from_bytes, "BasicHeader_decode_from_bytes", "BasicHeader", kind="classmethod",
+            args=[("value", BYTES)], ret=R("BasicHeader"))
+        job(f_basic, bh.BasicHeader.set_rhl, "BasicHeader_set_rhl", "BasicHeader", args=[("rhl", INT)], ret=R("BasicHeader"))
+    guarded(f_basic, setup_basic)
+    if f_basic.error:
+        f_lt.error = f_basic.error
+
+    # ---------------------------------------------------------------- service_access_point.TrafficClass, common_header.py
+    def setup_common():
+        from flexstack.geonet import service_access_point as sap, common_header as ch
+        for e in (sap.CommonNH, sap.HeaderType, sap.HeaderSubType, sap.TopoBroadcastHST, sap.GeoBroadcastHST,
+                  sap.GeoAnycastHST, sap.LocationServiceHST):
+            w.add_enum(e)
+        w.add_record(sap.TrafficClass, [("scf", BOOL), ("channel_offload", BOOL), ("tc_id", NAT)])
+        # `hst` holds a member of any of the sub-type enums: only its value is used
+        w.add_record(ch.CommonHeader, [("nh", E("CommonNH")), ("reserved", NAT), ("ht", E("HeaderType")),
+                                       ("hst", E("HeaderSubType")), ("tc", R("TrafficClass")), ("flags", NAT),
+                                       ("pl", NAT), ("mhl", NAT)])
+        job(f_common, sap.TrafficClass.encode_to_int, "TrafficClass_encode_to_int", "TrafficClass", ret=NAT)
+        job(f_common, sap.TrafficClass.decode_from_int, "TrafficClass_decode_from_int", "TrafficClass", kind="classmethod",
+            args=[("tc", NAT)], ret=R("TrafficClass"))
+        job(f_common, ch.CommonHeader.encode_to_int, "CommonHeader_encode_to_int", "CommonHeader", ret=NAT)
+        job(f_common, ch.CommonHeader.encode_to_bytes, "CommonHeader_encode_to_bytes", "CommonHeader", ret=BYTES)
+        job(f_common, ch.CommonHeader.decode_from_int, "CommonHeader_decode_from_int", "CommonHeader", kind="classmethod",
+            args=[("header", NAT)], ret=R("CommonHeader"))
+        job(f_common, ch.CommonHeader.decode_from_bytes, "CommonHeader_decode_from_bytes", "CommonHeader", kind="classmethod",
+            args=[("header", BYTES)], ret=R("CommonHeader"))
+    guarded(f_common, setup_common)
+
+    # ---------------------------------------------------------------- gn_address.py, position_vector.py
+    def setup_pv():
+        from flexstack.geonet import gn_address as ga, position_vector as pv
+        w.add_enum(ga.M), w.add_enum(ga.ST)
+        w.add_record(ga.MID, [("mid", BYTES)])
+        w.add_record(ga.GNAddress, [("m", E("M")), ("st", E("ST")), ("mid", R("MID"))])
+        w.add_record(pv.TST, [("msec", NAT)])
+        w.add_record(pv.LongPositionVector, [("gn_addr", R("GNAddress")), ("tst", R("TST")), ("latitude", INT),
+                                             ("longitude", INT), ("pai", BOOL), ("s", INT), ("h", NAT)])
+        w.add_record(pv.ShortPositionVector, [("gn_addr", R("GNAddress")), ("tst", R("TST")), ("latitude", INT),
+                                              ("longitude", INT)])
+        job(f_pv, ga.GNAddress.encode_to_int, "GNAddress_encode_to_int", "GNAddress", ret=NAT)
+        job(f_pv, ga.GNAddress.encode, "GNAddress_encode", "GNAddress", ret=BYTES)
+        job(f_pv, ga.GNAddress.decode, "GNAddress_decode", "GNAddress", kind="classmethod", args=[("data", BYTES)],
+            ret=R("GNAddress"))
+        job(f_pv, pv.TST.encode, "TST_encode", "TST", ret=NAT)
+        job(f_pv, pv.TST.decode, "TST_decode", "TST", kind="classmethod", args=[("data", NAT)], ret=R("TST"))
+        job(f_pv, pv.LongPositionVector.encode_to_int, "LongPositionVector_encode_to_int", "LongPositionVector", ret=NAT)
+        job(f_pv, pv.LongPositionVector.encode, "LongPositionVector_encode", "LongPositionVector", ret=BYTES)
+        job(f_pv, pv.LongPositionVector.decode, "LongPositionVector_decode", "LongPositionVector", kind="classmethod",
+            args=[("data", BYTES)], ret=R("LongPositionVector"))
+        job(f_pv, pv.ShortPositionVector.encode_to_int, "ShortPositionVector_encode_to_int", "ShortPositionVector", ret=NAT)
+        job(f_pv, pv.ShortPositionVector.encode, "ShortPositionVector_encode", "ShortPositionVector", ret=BYTES)
+        job(f_pv, pv.ShortPositionVector.decode, "ShortPositionVector_decode", "ShortPositionVector", kind="classmethod",
+            args=[("data", BYTES)], ret=R("ShortPositionVector"))
+        # TST comparison / difference operators (C08): separate file without imports
+        for op, ret in (("__gt__", BOOL), ("__ge__", BOOL), ("__lt__", BOOL), ("__le__", BOOL), ("__eq__", BOOL),
+                        ("__sub__", INT), ("__add__", NAT)):
+            fi = FuncInfo(getattr(pv.TST, op), "TST" + op.rstrip("_").replace("__", "_"), "TST", other=True, ret=ret)
+            f_tst.jobs.append(fi)     # not registered in w.funcs: the operators call each other by inlining
+    guarded(f_pv, setup_pv)
+    if f_pv.error:
+        f_tst.error = f_pv.error
+
+    # ---------------------------------------------------------------- extended headers
+    def setup_ext():
+        from flexstack.geonet import gbc_extended_header as gbc, tsb_extended_header as tsb, guc_extended_header as guc, \
+            ls_extended_header as ls
+        hdr = [("sn", NAT), ("reserved", NAT), ("so_pv", R("LongPositionVector"))]
+        w.add_record(gbc.GBCExtendedHeader, hdr + [("latitude", INT), ("longitude", INT), ("a", NAT), ("b", NAT),
+                                                   ("angle", NAT), ("reserved2", NAT)])
+        w.add_record(tsb.TSBExtendedHeader, hdr)
+        w.add_record(guc.GUCExtendedHeader, hdr + [("de_pv", R("ShortPositionVector"))])
+        w.add_record(ls.LSRequestExtendedHeader, hdr + [("request_gn_addr", R("GNAddress"))])
+        w.add_record(ls.LSReplyExtendedHeader, hdr + [("de_pv", R("ShortPositionVector"))])
+        for cls in (gbc.GBCExtendedHeader, tsb.TSBExtendedHeader, guc.GUCExtendedHeader, ls.LSRequestExtendedHeader,
+                    ls.LSReplyExtendedHeader):
+            n = cls.__name__
+            job(f_ext, cls.encode, n + "_encode", n, ret=BYTES)
+            job(f_ext, cls.decode, n + "_decode", n, kind="classmethod", args=[("header", BYTES)], ret=R(n))
+    guarded(f_ext, setup_ext)
+
+    # ---------------------------------------------------------------- btp_header.py
+    def setup_btp():
+        from flexstack.btp import btp_header as bt
+        w.add_record(bt.BTPAHeader, [("destination_port", NAT), ("source_port", NAT)])
+        w.add_record(bt.BTPBHeader, [("destination_port", NAT), ("destination_port_info", NAT)])
+        for cls in (bt.BTPAHeader, bt.BTPBHeader):
+            n = cls.__name__
+            job(f_btp, cls.encode_to_int, n + "_encode_to_int", n, ret=NAT)
+            job(f_btp, cls.encode, n + "_encode", n, ret=BYTES)
+            job(f_btp, cls.decode, n + "_decode", n, kind="classmethod", args=[("data", BYTES)], ret=R(n))
+    guarded(f_btp, setup_btp)
+
+    # ---------------------------------------------------------------- router.get_sequence_number
+    def setup_seq():
+        from flexstack.geonet import router
+        w.add_record(router.Router, [("sequence_number", NAT)], check=False)
+        job(f_seq, router.Router.get_sequence_number, "Router_get_sequence_number", "Router", ret=NAT)
+    guarded(f_seq, setup_seq)
+    for f in fams:
+        f.jobs = [j for j in f.jobs if j is not None]
+    return w, fams
+
+
+_CACHE = {}
+
+
+def extract_all():
+    """translate every family from the current source (once per process); returns (world, families)"""
+    if "r" in _CACHE:
+        return _CACHE["r"]
+    w, fams = build()
+    for fam in fams:
+        for fi in fam.jobs:
+            if fam.error:
+                fi.status = f"extract-skipped: {fam.error}"
+                continue
+            try:
+                fi.text = py2lean.translate_job(w, fi)
+                fi.status = "extracted"
+            except Unsupported as e:
+                fi.status = f"extract-skipped: {e}"
+            except Exception as e:  # noqa: BLE001   (translator bug / source the parser cannot read: a skip, never a verdict)
+                fi.status = f"extract-skipped: translator error {type(e).__name__}: {e}"
+    _CACHE["r"] = (w, fams)
+    return w, fams
+
+
+def family_ok(fam, by_key):
+    """None if the family's bridge can be an obligation, else the reason"""
+    if fam.error:
+        return fam.error
+    for fi in fam.jobs:
+        if fi.status != "extracted":
+            return f"{fi.lean} {fi.status}"
+    for d in fam.deps:
+        r = family_ok(by_key[d], by_key)
+        if r:
+            return f"dependency {d}: {r}"
+    return None
+
+
+def lean_file(fam):
+    body = "".join(f"import {i}\n" for i in fam.imports)
+    body += "set_option linter.unusedVariables false\n"
+    body += "namespace Generated.Extracted\n"
+    if "Generated.ExtractPrelude" in fam.imports:
+        body += "open FlexModel.Wire\n"
+    for fi in fam.jobs:
+        if fi.status == "extracted":
+            body += fi.text + "\n"
+        else:
+            body += f"-- {fi.status.replace(chr(10), ' ')} [{fi.lean}]\n"
     body += "end Generated.Extracted\n"
-    write_if_changed("Extracted.lean", body)
-    return skipped
+    return body
+
+
+def generate(prop):
+    """write the generated files of every family serving `prop` (and their dependencies); returns the report"""
+    w, fams = extract_all()
+    by_key = {f.key: f for f in fams}
+    todo, report = [], {}
+
+    def need(f):
+        if f not in todo:
+            for d in f.deps:
+                need(by_key[d])
+            todo.append(f)
+    for f in fams:
+        if prop is None or prop in f.props:
+            need(f)
+    with common.BuildLock():
+        if any("Generated.ExtractPrelude" in f.imports for f in todo):
+            write_if_changed("ExtractPrelude.lean", PRELUDE)
+        for f in todo:
+            write_if_changed(f.file + ".lean", lean_file(f))
+    for f in todo:
+        for fi in f.jobs:
+            report[fi.lean] = fi.status
+        if prop is None or prop in f.props:
+            why = family_ok(f, by_key)
+            report[f.bridge] = "obligation (built and audited in this run)" if why is None else f"not checked: {why}"
+    report["not attempted"] = "; ".join(f"{k}: {v}" for k, v in NOT_ATTEMPTED.items())
+    return report
+
+
+def bridge_modules(prop):
+    """Lean modules with bridge lemmas that are obligations of `prop` for the current source
+    (called from harness/props/cXX.py: `MODULES = ["Props.Cxx"] + gen_extract.bridge_modules("Cxx")`).
+    Does not read or write lean/Generated (works from a state where it does not exist yet).
+    Never raises: any failure means "no bridge obligations" (logged by the generator at run time)."""
+    try:
+        import os
+        w, fams = extract_all()      # in memory only: the files are (re)written by the registered generator under the build lock
+        by_key = {f.key: f for f in fams}
+        out = []
+        for f in fams:
+            if prop in f.props and family_ok(f, by_key) is None \
+                    and os.path.exists(os.path.join(common.LEAN, *f.bridge.split(".")) + ".lean"):
+                out.append(f.bridge)
+        return out
+    except Exception:  # noqa: BLE001
+        return []
+
+
+def _register(prop):
+    @gen_lean.register(props=[prop])
+    def gen():
+        return generate(prop)
+    gen.__name__ = f"gen_extracted_{prop}"
+    return gen
+
+
+for _p in ("C02", "C08", "C15", "C20"):
+    _register(_p)
